@@ -65,6 +65,12 @@ class Layout:
                 elif fail == 'raise_reraise':
                     out += [('>>> try:  # %s' % self.mark(), 'src'), ('...     1 / 0  # %s' % self.mark(), 'fail'),
                             ('... except ZeroDivisionError:  # %s' % self.mark(), 'src'), ('...     z = 0  # %s' % self.mark(), 'src'), ('...     raise  # %s' % self.mark(), 'src')]
+                elif fail == 'raise_foreign_lineno':
+                    # the exception object carries a `lineno` of its own, about some OTHER text (a SyntaxError from compile(), a
+                    # JSON / XML parse error): the failing line is still the doctest line that raised
+                    out += [('>>> q = 1  # %s' % self.mark(), 'src'), ('>>> r = 2  # %s' % self.mark(), 'src'),
+                            (rng.choice(['>>> compile("1 +", "<cfg>", "eval")  # %s', '>>> __import__("json").loads("{bad")  # %s',
+                                         '>>> raise SyntaxError("x", ("f.cfg", 1, 1, "x"))  # %s']) % self.mark(), 'fail')]
                 elif fail == 'gotwant':
                     m = self.mark()
                     out += [('>>> print("right %s")' % m, 'src'), ('WRONG %s' % m, 'fail'), ('second want line %s' % m, 'want')]
@@ -113,7 +119,7 @@ class Layout:
 
 HELPER = 'def failing_helper():\n    x = 1\n    raise KeyError("from helper")\n\n'
 FAILS = [None, 'raise', 'raise_multiline', 'call', 'call_in_block', 'gotwant', 'gotwant_after_multiline',
-         'raise_try_finally', 'raise_in_with', 'raise_reraise']
+         'raise_try_finally', 'raise_in_with', 'raise_reraise', 'raise_foreign_lineno']
 
 
 def gen_module(rng):
